@@ -325,6 +325,20 @@ def exec (vs : List Int) : List Stmt → Option (List (Lhs × Val))
     | some v, some ws => some ((l, v) :: ws)
     | _, _ => none
 
+/-- the emitted statements run one after the other, in the order the walker emitted them (the order
+    of the list `exec` returns): every write is applied to the store its predecessors left behind.
+    `write` — how the place expression of the `l.pos`-th user pattern is resolved against the CURRENT
+    store (`arr[idx]` reads `idx` at that moment, the same variable may be listed twice, a `let`
+    shadows) — is the caller's; the model fixes only the sequencing. -/
+def runWrites {σ : Type} (write : σ → Lhs → Val → σ) (s : σ) (ws : List (Lhs × Val)) : σ :=
+  ws.foldl (fun s w => write s w.1 w.2) s
+
+/-- the user-pattern positions assigned by a statement list, in statement order -/
+def assignOrder : List Stmt → List Nat
+  | [] => []
+  | .assign l _ :: rest => l.pos :: assignOrder rest
+  | .assertTy _ :: rest => assignOrder rest
+
 /-- observable outcome of a rebind macro -/
 inductive RebindOut where
   | reject                              -- does not compile
